@@ -109,6 +109,11 @@ def const_case(rec, seedt, tier):
         s = float(rng.choice([1e-9, 1 - 1e-9, -1e-9]))
     else:
         s = float(rng.uniform(-N, N))
+    if rng.random() < 0.08:
+        # numerically-zero and barely-non-integer shifts: the fractional part rounds to 0 or 1
+        s = float(rng.choice([-1e-17, 1e-17, -1e-300, -5e-324, 5e-324, 0.3 - 0.1 - 0.2,
+                              1 - 1e-17, -1 + 1e-17, 2 + 4e-16, -3 - 4e-16]))
+        skind = "rounding-edge"
     rkind = str(rng.choice(["random", "poly", "int"]))
     t = np.linspace(-1, 1, N)
     deg = None
